@@ -1389,7 +1389,20 @@ func (z *Decimal) Sub(x, y *Decimal) *Decimal {
 
 	// ±0 - y
 	// x - ±Inf
-	return z.Neg(y)
+	// Not z.Neg(y): the directed rounding modes and the accuracy depend on
+	// the sign, which must be that of the result before rounding.
+	z.acc = Exact
+	neg := !y.neg
+	if z != y {
+		z.form = y.form
+		if y.form == finite {
+			z.exp = y.exp
+			z.mant = z.mant.set(y.mant)
+		}
+	}
+	z.neg = neg
+	z.round(0)
+	return z
 }
 
 // Uint64 returns the unsigned integer resulting from truncating x
